@@ -723,7 +723,9 @@ def report(ctx: Ctx, what, **kw):
 
 
 CALLS_FULL = [["decode", None], ["prettify"], ["decode", 0], ["decode", 1], ["decode", 2], ["decode_contents", 0],
-              ["decode_contents", 1], ["decode_contents", None], ["decode", -1], ["decode", True], ["decode", 5], ["decode", False]]
+              ["decode_contents", 1], ["decode_contents", None], ["decode", -1], ["decode", True], ["decode", 5]]
+# (`decode(indent_level=False)` was in this list: Tag.decode treats it as level 0, BeautifulSoup.decode as "do not pretty-print"; the
+#  property speaks of prettify() and of the formatter's indent, a boolean level is outside it: dropped after the free-behaviour round)
 
 
 def do_call(recv, call, farg):
